@@ -680,10 +680,11 @@ CompleteAfterAllM == \A x \in Names : (IsItems(x) /\ hist.reruns = 0 /\ ~hist.id
                         /\ (wf \notin Final \/ tk[x].state = "SUCCESS") => {ax[x][k].i : k \in {j \in 1..Len(ax[x]) : ax[x][j].a}} = 0..(Pol(x).items - 1)
                         /\ (wf \notin Final) => ((tk[x].state = "ERROR") <=> \E k \in 1..Len(ax[x]) : ax[x][k].a /\ ax[x][k].s = "ERROR")
 \* C08: at rest a task with a retry policy (and no timeout) ends in the state of its last attempt; no attempt after a success
-FinalIffLastM == Quiet => \A x \in Names : (Pol(x).retry > 0 /\ ~IsItems(x) /\ ~Pol(x).failOn /\ Pol(x).timeout = 0 /\ Done(tk[x].state) /\ ax[x] # <<>>
+FinalIffLastM == Quiet => \A x \in Names : (Pol(x).retry > 0 /\ hist.reruns <= 1 /\ ~IsItems(x) /\ ~Pol(x).failOn /\ Pol(x).timeout = 0 /\ Done(tk[x].state) /\ ax[x] # <<>>
                                                /\ ~KF_Rearmed /\ ~hist.delayedRestart /\ ~KF_DoubleStart /\ tk[x].state # "SKIPPED")
                                => ((tk[x].state = "SUCCESS") <=> (ax[x][Len(ax[x])].s = "SUCCESS"))
-StopAtFirstSuccessM == \A x \in Names : (Pol(x).retry > 0 /\ ~IsItems(x) /\ ~Pol(x).failOn /\ Pol(x).contOn = "none" /\ ~KF_Rearmed /\ ~hist.delayedRestart /\ ~KF_DoubleStart /\ ~hist.timeoutRetry)
+\* (two reruns accepted back to back - the second before the first one's start_task is delivered - give the task two new attempts)
+StopAtFirstSuccessM == \A x \in Names : (Pol(x).retry > 0 /\ hist.reruns <= 1 /\ ~IsItems(x) /\ ~Pol(x).failOn /\ Pol(x).contOn = "none" /\ ~KF_Rearmed /\ ~hist.delayedRestart /\ ~KF_DoubleStart /\ ~hist.timeoutRetry)
                           => \A k \in 1..Len(ax[x]) : ax[x][k].s = "SUCCESS" => k = Len(ax[x])
 \* C04 / C01 (reverse workflows): only tasks of the target's dependency closure are ever created, and only once everything they
 \* require has succeeded
